@@ -42,7 +42,7 @@ CLAIMS = {
  "C18": ("Theorems C18_records_answer (every accepted addition records exactly the numbers supplied by the resolver/override) and "
          "C18_shape_preserved (a close changes nothing but offsets); layout decisions in the model read only those numbers. Decisive "
          "part is the tie: channel L drives typed/uninit/dynamic/override/copy entry points under synthetic resolvers whose answers "
-         "differ from the host's. Table round-trip part not yet modelled (partial).", "4 C18", L_NOTE,
+         "differ from the host's; C18_table_registered / _keeps / _duplicate / _lookup_normalised over the table model, tied by channel T (standard table vs host resolver, JSON round trip, whitespace lookups, duplicate registration).", "4 C18", L_NOTE,
          "Lean 4 theorem + correspondence under synthetic type tables"),
  "C19": ("The model is a pure function of the request list (C19_layout_is_function_partial, C19_size_order_stable); the property "
          "is carried by the tie: implementation = that function on every history, in one process (channel L) and across two "
@@ -98,6 +98,12 @@ CLAIMS = {
          "generator IR + channel X: clone / clone_from / clone with an injected panic at a random field on compiled modules, then mutation and "
          "drop of either side, compared with the model and an independent ledger.", "4 C16", X_NOTE,
          "Lean 4 theorems over a value-level clone model + correspondence on compiled generated code"),
+ "C17": ("C17_denote (for type syntax trees of any depth: rewriting does not change the canonical long form), C17_idem, C17_short_long (short and "
+         "fully qualified spellings of the five std types are recorded identically, at any position). Whitespace-insensitivity and the "
+         "parser/printer are carried by the tie: channel T compares the real normaliser with the Lean lexer+parser+rewrite+printer on ~7000 "
+         "spellings of ~1200 concrete types, and a rustc probe `fn(T) -> <recorded name>` per type validates the resolution hypothesis.", "4 C17",
+         "Trusted: Lean kernel + standard axioms; syn/quote are modelled by a hand-written lexer/parser/printer (tied by channel T); rustc name resolution assumed as the Prelude hypothesis and validated by compile probes.",
+         "Lean 4 theorems (mutual structural induction over type syntax) + correspondence on a type catalogue + rustc probes"),
 }
 PENDING = "check not built yet (build phase in progress); planned per DESIGN.md section 4"
 
